@@ -364,6 +364,9 @@ def run(run):
                 run.traces += 1
                 if bad:
                     run.violation(bad[0], bad[1], {'kind': 'behaviour', 'behaviour': beh})
+        # one Encoder and one Decoder for a series of messages whose table versions alternate (elements and sequences whose
+        # entries differ between the versions): the round trip of each is judged as if it were the only one
+        fm94.cross_version_pass(run, wd, ('roundtrip',), seed())
         corpus_fix(run)
     finally:
         rm_workdir(wd)
